@@ -226,6 +226,7 @@ CLASSES = {
     "PlainNM": (lambda l: _nodes.PlainNM(_name(l)), "NM", False),
     "SlotLM": (lambda l: _nodes.SlotLM(_name(l)), "LM", False),
     "DictLM": (lambda l: _nodes.DictLM(_name(l)), "LM", False),
+    "LateSuperNM": (lambda l: _nodes.LateSuperNM(_name(l)), "NM", False),
 }
 NM_CLASSES = [k for k, v in CLASSES.items() if v[1] == "NM"]
 LM_CLASSES = [k for k, v in CLASSES.items() if v[1] == "LM"]
